@@ -288,13 +288,18 @@ def run_case(case, res):
         return
 
     if case["kind"] == "structure":
-        n = 0
-        for weights, activations, filt in itertools.product((wq.qt("qint8"), wq.qt("qint4")), (None, wq.qt("qint8")), (None, "first-half", "non-eligible-only")):
+        # quantize() is called many times in one process, as an application that quantizes several models does: the outcome of a
+        # call must not depend on the calls before it.  Every failing configuration is replayed in a fresh process together with
+        # the history of calls that preceded it here (both orders of the configuration list are run).
+        confs = list(itertools.product((wq.qt("qint8"), wq.qt("qint4")), (None, wq.qt("qint8")), (None, "first-half", "non-eligible-only")))
+        hist = []
+        for weights, activations, filt in confs + confs[::-1]:
             probs = structure_problems(case["tree"], weights, activations, filt)
-            res.side_ok("exactly-the-eligible-modules-are-swapped", not probs, f"{case['tree']} weights={weights.name} act={activations} filter={filt}: {probs[:2]}")
+            res.side_ok("exactly-the-eligible-modules-are-swapped", not probs, f"{case['tree']} weights={weights.name} act={activations} filter={filt} after {len(hist)} earlier calls: {probs[:2]}")
             if probs:
                 res.side[-1]["replayed"] = True
-                res.candidate("structure", "side", dict(kind="structure", tree=case["tree"], weights=weights.name, act=activations.name if activations else None, filt=filt), exact=True)
+                res.candidate("structure", "side", dict(kind="structure", tree=case["tree"], weights=weights.name, act=activations.name if activations else None, filt=filt, history=list(hist)), exact=True)
+            hist.append([case["tree"], weights.name, activations.name if activations else None, filt])
         return
 
     if case["kind"] == "names-crosshair":
@@ -443,6 +448,8 @@ def replay(rec):
 
     inp = rec["inputs"]
     if inp["kind"] == "structure":
+        for t_, w_, a_, f_ in inp.get("history", []):
+            structure_problems(t_, wq.qt(w_), wq.qt(a_) if a_ else None, f_)
         probs = structure_problems(inp["tree"], wq.qt(inp["weights"]), wq.qt(inp["act"]) if inp["act"] else None, inp["filt"])
         return bool(probs), "; ".join(probs[:4]) or "structure ok", None
     if inp["kind"] == "names":
